@@ -22,6 +22,19 @@ func AwardTx(addr string, amount *big.Int, ts int64) *pb.Transaction {
 	return t
 }
 
+// AwardTxSplit is an award whose first output is the regular award (all the award rule looks at)
+// followed by further outputs: the node accepts such a coinbase from any producer, so undo,
+// totals and crash recovery have to cope with coinbases of several outputs outside genesis too.
+func AwardTxSplit(addr string, amount *big.Int, ts int64, extra ...Out) *pb.Transaction {
+	t := &pb.Transaction{Version: 1, Coinbase: true, Desc: []byte("award"), Timestamp: ts}
+	t.TxOutputs = append(t.TxOutputs, &protos.TxOutput{ToAddr: []byte(addr), Amount: amount.Bytes()})
+	for _, o := range extra {
+		t.TxOutputs = append(t.TxOutputs, &protos.TxOutput{ToAddr: []byte(o.To), Amount: o.Amount.Bytes()})
+	}
+	t.Txid, _ = txhash.MakeTransactionID(t)
+	return t
+}
+
 // CloneTx deep-copies a transaction.
 func CloneTx(t *pb.Transaction) *pb.Transaction { return proto.Clone(t).(*pb.Transaction) }
 
@@ -32,7 +45,9 @@ func CloneBlock(b *pb.InternalBlock) *pb.InternalBlock { return proto.Clone(b).(
 // ledger formatter (the code path a miner uses). Transactions are deep-copied.
 func (n *Node) FormatBlock(parent []byte, height int64, proposer *Key, ts int64, txs []*pb.Transaction, withAward bool) (*pb.InternalBlock, error) {
 	list := []*pb.Transaction{}
-	if withAward {
+	if withAward && len(n.AwardExtra) > 0 {
+		list = append(list, AwardTxSplit(proposer.Address, n.Ledger.GenesisBlock.CalcAward(height), ts, n.AwardExtra...))
+	} else if withAward {
 		list = append(list, AwardTx(proposer.Address, n.Ledger.GenesisBlock.CalcAward(height), ts))
 	}
 	for _, t := range txs {
